@@ -141,7 +141,8 @@ func (vfs *MemFS) VolumeDelete(path string) error {
 		return &fs.PathError{Op: op, Path: path, Err: avfs.ErrVolumeNameInvalid}
 	}
 
-	err := vfs.RemoveAll(vol)
+	// the bare volume name is relative to the current directory : its root directory is vol + separator.
+	err := vfs.RemoveAll(vol + string(vfs.PathSeparator()))
 	if err != nil {
 		return err
 	}
